@@ -592,6 +592,14 @@ def run_C09(ctx, K):
         ctx.coq_cases += rep4.get("coq_cases", 0)
         K.run_cases(ctx, cases4, "Engine.parStabilize (memoized binds)~ParallelStabilize(parallelism 1), pardropmemo stream")
     run_par_stream(ctx, K, b, "pardropmemo", 4, tier_n(ctx, 200, 2000), "par4_pardropmemo", False, claim="C09", include="C01,C04,C05,C06,C07,C10")
+    # nodes wider than the edge-index threshold read through memoized right-hand sides (parked and taken back)
+    cases5 = os.path.join(ctx.rundir, "cases_C09_widememo.v")
+    rep5 = K.run_tool(ctx, b, ["-prop", "widememo", "-claim", "C09", "-include", "C01,C05,C06,C07,C10", "-n", str(tier_n(ctx, 150, 1500)), "-ops", "36",
+                               "-coq", cases5, "-coqmax", str(tier_n(ctx, 6, 60)), "-seed", str(ctx.seed)], "engine-widememo")
+    if rep5:
+        ctx.coq_cases += rep5.get("coq_cases", 0)
+        K.run_cases(ctx, cases5, "Engine.v (memoized binds)~incrutil.BindMemoized (widememo stream)")
+    run_par_stream(ctx, K, b, "widememo", 4, tier_n(ctx, 100, 1000), "par4_widememo", False, claim="C09", include="C01,C04,C05,C06,C07,C10")
     cases = os.path.join(ctx.rundir, "cases_C09_keys.v")
     rep = K.run_tool(ctx, b, ["-mode", "memokeys", "-len", str(tier_n(ctx, 5, 7)), "-claim", "C09", "-include", "C01,C05,C06,C07,C10",
                               "-coq", cases, "-coqmax", str(tier_n(ctx, 60, 400)), "-seed", str(ctx.seed)], "memo-keys")
